@@ -32,7 +32,8 @@ class MServer(object):
     def __init__(self, rng, i, horizon):
         self.key = Key(rng, "S%d" % i)
         self.sid = self.key.v0                       # b"v0-<52 chars>"
-        self.tubid = b32(bytes(rng.getrandbits(8) for _ in range(20)))
+        self.tubid_raw = bytes(rng.getrandbits(8) for _ in range(20))
+        self.tubid = b32(self.tubid_raw)
         self.furl = "pb://%s@tcp:127.0.0.%d:%d/%s" % (self.tubid.decode(), i + 1, 1000 + i, "swiss%d" % i)
         self.seed_ann = None
         r = rng.random()
@@ -45,6 +46,14 @@ class MServer(object):
         if not self.connected and self.path == "test_add_rref":
             self.path = "announce"        # test_add_rref always yields a connected server
         self.nick = "srv-%d" % i
+        # a share of the servers also announce HTTP storage (NURLs): clients that do not force Foolscap then build
+        # HTTPNativeStorageServer objects for them
+        self.port = 20000 + rng.randrange(40000)
+        self.nurls = None
+        if rng.random() < .4:
+            self.nurls = ["pb://1WUX44xKjKdpGLohmFcBNuIRN-8rlv1Iij_7rQ4jR1I@127.0.0.%d:%d/sw%d#v=1" % (i + 1, self.port, i)]
+            if self.path == "test_add_rref":
+                self.path = "announce"    # test_add_rref marks Foolscap-style connectedness only
 
     def seed(self):
         if self.seed_ann is not None:
@@ -55,6 +64,8 @@ class MServer(object):
         a = {"service-name": "storage", "anonymous-storage-FURL": self.furl, "nickname": self.nick}
         if self.seed_ann is not None:
             a["permutation-seed-base32"] = b32(self.seed_ann).decode("ascii")
+        if self.nurls:
+            a["anonymous-storage-NURLs"] = list(self.nurls)
         if self.certs:
             a["grid-manager-certificates"] = [
                 {"certificate": c[1].decode("utf-8"), "signature": b32(c[2]).decode("ascii")} for c in self.certs]
@@ -105,6 +116,8 @@ def run(ck):
     from twisted.application import service
     from twisted.internet import defer
     from allmydata import grid_manager as gm
+    from allmydata import storage_client as sc_mod
+    from allmydata.storage.http_client import ImmutableCreateResult
     from allmydata.storage_client import StorageFarmBroker, StorageClientConfig
     from allmydata.node import config_from_string
     from allmydata.client import _valid_config, SecretHolder
@@ -166,6 +179,31 @@ def run(ck):
             for cb in cbs:
                 cb()
 
+    # The only substitution on the HTTP side: the wire-level client classes storage_client.py instantiates.  Server
+    # objects, their polling (_connect -> _got_version / _failed_to_connect) and _HTTPStorageServer stay real.
+    http_down = set()       # ports that currently refuse get_version
+    http_log = []           # (call, port)
+    HTTP_VERSION = {b"http://allmydata.org/tahoe/protocols/storage/v1": {
+        b"maximum-immutable-share-size": 2 ** 32 - 1, b"available-space": 10 ** 9}, b"application-version": b"fake-http"}
+
+    class FakeGeneral(object):
+        def __init__(self, client): self.port = client._base_url.port
+        def get_version(self):
+            if self.port in http_down:
+                return defer.fail(ConnectionRefusedError("vf: port %d down" % self.port))
+            return defer.succeed(HTTP_VERSION)
+
+    class FakeImmutables(object):
+        def __init__(self, client): self.port = client._base_url.port
+        def create(self, storage_index, share_numbers, allocated_size, upload_secret, renew, cancel):
+            http_log.append(("allocate_buckets", self.port))
+            return defer.succeed(ImmutableCreateResult(already_have=set(), allocated=set(share_numbers)))
+        def list_shares(self, storage_index):
+            http_log.append(("get_buckets", self.port))
+            return defer.succeed(set())
+    real_http = (sc_mod.StorageClientGeneral, sc_mod.StorageClientImmutables)
+    sc_mod.StorageClientGeneral, sc_mod.StorageClientImmutables = FakeGeneral, FakeImmutables
+
     def drain():
         n = 0
         while env.evq.pending() and n < 50:
@@ -173,18 +211,21 @@ def run(ck):
 
     class BrokerHarness(object):
         """One real StorageFarmBroker plus the fake network under it."""
-        def __init__(self, mode, preferred, configured):
+        def __init__(self, mode, preferred, configured, force_foolscap):
             self.mode = mode
+            self.force_foolscap = force_foolscap
+            self.http = {}          # sid -> this broker holds an HTTPNativeStorageServer for it
+            ff = "force_foolscap = %s\n" % ("true" if force_foolscap else "false")
             self.registry = []      # (furl, got_connection cb) from FakeTub.connectTo
             self.rrefs = {}         # sid -> FakeRref
             self.log = []           # remote calls seen by fake storage servers
             self.paths = {}         # sid -> how this broker learnt of the server
             if mode == "direct":
-                node_cfg = config_from_string("/nonexistent-vf", "tub.port", "")
+                node_cfg = config_from_string("/nonexistent-vf", "tub.port", "[client]\n" + ff, _valid_config())
                 scc = StorageClientConfig(preferred_peers=tuple(preferred),
                                           grid_manager_keys=[ed25519.verifying_key_from_string(k.pub_s) for k in configured])
             else:
-                txt = "[client]\n"
+                txt = "[client]\n" + ff
                 if preferred:
                     txt += "peers.preferred = %s\n" % ", ".join(p.decode("ascii") for p in preferred)
                 if configured:
@@ -198,6 +239,11 @@ def run(ck):
         def add(self, ms):
             ann = ms.ann()
             self.paths[ms.sid] = ms.path
+            self.http[ms.sid] = bool(ms.nurls) and not self.force_foolscap
+            if self.http[ms.sid]:
+                # start_connecting() polls at once: the fake HTTP endpoint answers or refuses according to http_down
+                (http_down.discard if ms.connected else http_down.add)(ms.port)
+                ck.hit("http-server-object")
             if ms.path == "announce":
                 self.sb._got_announcement(ms.sid, ann)
                 ck.hit("path:announcement")
@@ -212,11 +258,26 @@ def run(ck):
                 self.rrefs[ms.sid] = rref
                 ck.hit("path:test_add_rref")
                 return
+            if self.http[ms.sid]:
+                drain()
+                obj = self.server(ms)
+                if type(obj).__name__ != "HTTPNativeStorageServer":
+                    raise RuntimeError("expected an HTTP server object for %r" % ms.sid)
+                return
             if ms.connected:
                 self.connect(ms)
 
+        def server(self, ms):
+            return [s for s in self.sb.get_known_servers() if s.get_serverid() == ms.sid][0]
+
         def connect(self, ms):
             """the tub calls the got_connection callback it was given in connectTo"""
+            if self.http[ms.sid]:
+                http_down.discard(ms.port)
+                self.server(ms).try_to_connect()          # public IServer method: poll now
+                drain()
+                ck.hit("connected-via-http-poll")
+                return
             cbs = [cb for furl, cb in self.registry if furl == ms.furl.encode("utf-8")]
             if not cbs:
                 raise RuntimeError("no connectTo seen for %r" % ms.sid)
@@ -227,10 +288,18 @@ def run(ck):
             ck.hit("connected-via-got_connection")
 
         def can_disconnect(self, ms):
+            if self.http[ms.sid]:
+                return True
             r = self.rrefs.get(ms.sid)
             return r is not None and bool(r._lost)
 
         def disconnect(self, ms):
+            if self.http[ms.sid]:
+                http_down.add(ms.port)
+                self.server(ms).try_to_connect()          # the next poll fails -> _failed_to_connect
+                drain()
+                ck.hit("disconnected-via-http-poll")
+                return
             self.rrefs[ms.sid].lose()            # foolscap fires the notifyOnDisconnect callbacks
             ck.hit("disconnected-via-notifyOnDisconnect")
 
@@ -286,9 +355,19 @@ def run(ck):
         # seeds as the IServer API reports them
         for s in objs:
             ms = next(m for m in servers if m.sid == s.get_serverid())
+            kind = type(s).__name__
+            ck.mon("server-seeds-oracle")
+            if kind == "HTTPNativeStorageServer":
+                ck.hit("http-server-in-order")
             if s.get_permutation_seed() != ms.seed():
-                ck.violation("permutation-seed-mismatch", "IServer.get_permutation_seed() differs from the announced/derived seed",
-                             {"id": ms.sid, "got": s.get_permutation_seed(), "want": ms.seed()})
+                ck.violation("permutation-seed-mismatch", "%s.get_permutation_seed() differs from the announced/derived seed" % kind,
+                             {"id": ms.sid, "class": kind, "got": s.get_permutation_seed(), "want": ms.seed(),
+                              "tubid": ms.tubid_raw, "announcement": ms.ann()})
+            if s.get_lease_seed() != ms.tubid_raw or s.get_foolscap_write_enabler_seed() != ms.tubid_raw:
+                ck.violation("lease-or-write-enabler-seed-mismatch",
+                             "%s lease seed / write-enabler seed differ from the tub id in the announced FURL" % kind,
+                             {"id": ms.sid, "class": kind, "lease_seed": s.get_lease_seed(),
+                              "write_enabler_seed": s.get_foolscap_write_enabler_seed(), "want": ms.tubid_raw})
         # upload filter
         gotu, objsu = h.ids(psi, for_upload=True)
         ck.mon("upload-filter-oracle")
@@ -319,6 +398,9 @@ def run(ck):
         """real Tahoe2ServerSelector against the broker; the fake storage servers record what reaches them"""
         now_us = now_box[0]
         del h.log[:]
+        del http_log[:]
+        timers_before = set(env.reactor.getDelayedCalls())
+        port2sid = {m.port: m.sid for m in servers}
         rb = RecordingBroker(h.sb)
         sel = Tahoe2ServerSelector(b"vf", None, UploadStatus(), reactor=env.reactor)
         total = rng.choice([1, 3, 5, 10])
@@ -329,8 +411,8 @@ def run(ck):
         d.addBoth(out.append)
         drain()
         for dc in list(env.reactor.getDelayedCalls()):
-            if dc.active():
-                dc.cancel()
+            if dc not in timers_before and dc.active():
+                dc.cancel()                       # the selector's own 15 s timeouts, not the HTTP servers' polling
         if not out:
             ck.observe("immutable-selection-did-not-finish")
             return
@@ -339,8 +421,10 @@ def run(ck):
             ck.hit("immutable-asks-for_upload")
         perm = {m.sid: m.permitted(configured, now_us) for m in servers}
         conn = {m.sid for m in servers if m.connected}
-        for name, sid in h.log:
+        for name, sid in h.log + [(n, port2sid.get(p)) for n, p in http_log]:
             if name == "allocate_buckets":
+                if sid not in h.rrefs:
+                    ck.hit("allocate_buckets-over-http")
                 ck.hit("allocate_buckets-observed")
                 if not perm[sid]:
                     ck.violation("immutable-upload-allocates-on-unpermitted-server",
@@ -446,8 +530,11 @@ def run(ck):
                 preferred.append(Key(rng).v0)                            # a preferred id nobody announced
             mode = rng.choice(["direct", "direct", "node-config"])
             now_box[0] = T0 + 1
-            A = BrokerHarness(mode, preferred, configured)
-            B = BrokerHarness(mode, preferred, configured)
+            # an HTTP client and a Foolscap client looking at the same announcements must agree
+            ffa, ffb = rng.choice([(False, True), (True, False), (False, False), (True, True)])
+            A = BrokerHarness(mode, preferred, configured, ffa)
+            B = BrokerHarness(mode, preferred, configured, ffb)
+            ck.hit("force_foolscap:%s/%s" % (ffa, ffb))
             order_a = list(servers); order_b = list(servers)
             rng.shuffle(order_a); rng.shuffle(order_b)
             for s in order_a:
@@ -455,7 +542,8 @@ def run(ck):
             for s in order_b:
                 keep = s.path
                 if rng.random() < .5:                 # B learns of it another way
-                    s.path = rng.choice(["announce", "static", "test_add_rref"] if s.connected else ["announce", "static"])
+                    s.path = rng.choice(["announce", "static", "test_add_rref"] if s.connected and not s.nurls
+                                        else ["announce", "static"])
                 B.add(s)
                 s.path = keep
             psis = [bytes(rng.getrandbits(8) for _ in range(rng.choice([16, 16, 16, 20, 32, 0, 1])))
@@ -521,14 +609,17 @@ def run(ck):
         redirect.__exit__(None, None, None)
         ck.extra["bad_cert_messages_printed"] = chatter.getvalue().count("signature failed")
         gm.current_datetime_with_zone = real_now
+        sc_mod.StorageClientGeneral, sc_mod.StorageClientImmutables = real_http
         for dc in list(env.reactor.getDelayedCalls()):
             if dc.active():
                 dc.cancel()
         env.evq.reset()
 
-    ck.require_monitor("order-oracle", "upload-filter-oracle", "certificate-oracle", "cross-broker-agreement",
+    ck.require_monitor("server-seeds-oracle", "order-oracle", "upload-filter-oracle", "certificate-oracle", "cross-broker-agreement",
                        "immutable-upload-oracle", "mutable-goal-oracle")
     ck.require_reach("path:announcement", "path:static", "path:test_add_rref", "connected-via-got_connection",
+                     "http-server-object", "http-server-in-order", "connected-via-http-poll", "allocate_buckets-over-http",
+                     "force_foolscap:False/True", "force_foolscap:True/False",
                      "config-via-tahoe-cfg", "upload-filter-excluded-a-server", "upload-filter-kept-a-server",
                      "immutable-asks-for_upload", "allocate_buckets-observed", "mutable-new-placement")
     ck.exhaustive = False
